@@ -52,8 +52,8 @@ CONTENTS = ["hello\n", "", "no newline", "café ✓\n"]
 MODES = [None, "0644", "644", "0600", "0444", "4755", "2750", "1777", "7777", "0000", "000",
          "preserve", "abc", "99", "07777", "é75", "+644", "8644"]
 FILE_MODES = [m for m in MODES if m != "preserve"]
-MODES_Q = [None, "0644", "0600", "0444", "4755", "1777", "preserve", "abc"]
-FILE_MODES_Q = [None, "0644", "0600", "4755", "2750", "99"]
+MODES_Q = [None, "0644", "0600", "0444", "4755", "1777", "0666", "preserve", "abc"]
+FILE_MODES_Q = [None, "0644", "0600", "4755", "2750", "99", "0664", "1777"]
 FILE_STATES = ["absent", "directory", "file", "touch", None]
 
 
